@@ -1,4 +1,5 @@
 import ButlerModel.Model.Chain
+import ButlerModel.Gen.ChainPy
 /-! # C03 — ordered collection search = first match of the flattened path; chain edits -/
 namespace C03
 open Chain
@@ -540,3 +541,26 @@ example : wouldCycle (fun c => if c = 0 then some [1] else if c = 1 then some [2
 
 
 end C03
+
+/-! ## T-tie: the chain-edit arithmetic **as translated from `registry/collections/_base.py` on every run**
+(`translate/gen_chain.py`): `_add_to_collection_chain` removes the new children first, *then* asks where to insert, then inserts;
+`_find_prepend_position` is `MIN(position) − len(children)`, `_find_extend_position` is `MAX(position) + 1`. -/
+namespace C03.Translated
+open Chain
+
+/-- **`prepend` as written in the source** (for the de-duplicated child list the wildcard resolution hands over) leaves the
+rows of the model's `prepend`. -/
+theorem translated_prepend (r : Rows) (new : List Nat) :
+    (fun x : Rows × Rows => x.2 ++ x.1) (Gen.ChainPy.addToChain Gen.ChainPy.prependPosition (dedup new) r []) = prepend r new := by
+  simp [Gen.ChainPy.addToChain, Gen.ChainPy.prependPosition, prepend]
+
+/-- **`extend` as written in the source** leaves the rows of the model's `extend`. -/
+theorem translated_extend (r : Rows) (new : List Nat) :
+    (fun x : Rows × Rows => x.1 ++ x.2) (Gen.ChainPy.addToChain Gen.ChainPy.extendPosition (dedup new) r []) = extend r new := by
+  simp [Gen.ChainPy.addToChain, Gen.ChainPy.extendPosition, extend]
+
+/-- non-vacuity: prepending children 5 and 2 to the chain (0:1, 1:2, 2:3): 2 moves to the front -/
+example : (fun x : Rows × Rows => x.2 ++ x.1) (Gen.ChainPy.addToChain Gen.ChainPy.prependPosition [5, 2] [(0, 1), (1, 2), (2, 3)] []) =
+    [(-2, 5), (-1, 2), (0, 1), (2, 3)] := by decide
+
+end C03.Translated
